@@ -318,8 +318,8 @@ def check_regions(run, f, cfg, unq):
                     continue
                 seen2.add(key)
                 nraw += 1
-                if name in (IDEN + "::to_string",):
-                    continue
+                if name in (IDEN + "::to_string", IDEN + "::quoted"):
+                    continue        # the accessor and the encoder themselves: what `quoted` returns is decided by C04.R1
                 run.ob("C04.R3", "raw-iden:%s" % key, key in unq,
                        "%s writes identifier `%s` without quoting: %s" % (short, what, unq.get(key, "NOT in the reviewed raw-by-contract table specs/unquoted_idens.json")),
                        sp=a[3], cfg=cfg)
